@@ -231,17 +231,7 @@ func c08Selector(c *Ctx, find, peek *ssa.Function, peekT *types.Named) {
 	c.Floor("detector-sees-peeked-bytes", 1, "one CanHandle site")
 
 	// (4) candidate list comes from hc.ports matched by compareAddr against the connection's LOCAL address
-	okCand := false
-	for _, call := range Calls(find) {
-		if f := call.Common().StaticCallee(); f != nil && FuncIs(f, serverPath, "compareAddr") {
-			a1 := Render(call.Common().Args[1])
-			a0 := Render(call.Common().Args[0])
-			good := a1 == "iface:net.Conn.LocalAddr(p1)" || a0 == "iface:net.Conn.LocalAddr(p1)"
-			c.Check(good, "candidates-by-local-addr", "findService compareAddr", p.InstrPos(call), "ports matched against conn.LocalAddr()", "port table is not matched against the connection's local address: "+a0+", "+a1)
-			okCand = true
-		}
-	}
-	c.Check(okCand, "candidates-by-local-addr", "findService uses compareAddr", p.Pos(find.Pos()), "", "selector does not match ports with compareAddr")
+	c08Candidates(c, "candidates-by-local-addr", find)
 
 	// (5) single-candidate shortcut and detector-less immediate return: a return of (elem, raw conn) exists whose DomConds contain len(cands)==1
 	short := false
